@@ -9,6 +9,8 @@ R3  length accounting of the builders: for every accepting path of every `XBuild
     that path built (decided under the path's own linear facts; one abstract iteration stands for list entries, whose
     sum must be `e.size()` over the same list).
 R4  every property-length field emitted in front of a property list is `from_u32(size(that list))`.
+R5  the same accounting for methods that recompute the length fields of an existing packet in place (applied to every
+    value a builder path produces, then serialised).
 R2  size wiring: every packet's `size()` is 1 + remaining_length.size() + remaining_length.to_u32(), and the
     GenericPacket / GenericStorePacket dispatchers forward each variant to the same-named method of its payload.
 """
@@ -109,6 +111,33 @@ def check(run, F, tier):
                          d, site="%s:%s" % (fobj["file"], fobj["line"]))
         elif rec["prop_ok"]:
             r4.ok(key, {"pairs": rec["prop_ok"]})
+
+    # ------------------------------------------------------------------ R5: in-place length recomputation
+    r5 = run.rule("C02-R5", "methods that recompute the length fields of an existing packet agree with its serialiser on every value a builder can produce", floor=1)
+    bl = {(v, k): b for v, k, b in lenacct.builders(F)}
+    for ver, kind, mfn in lenacct.mutators(F):
+        key = "%s::%s::%s" % (ver, kind, mfn.split("::")[-1])
+        if (ver, kind) not in bl:
+            r5.violation(key, "no builder found for %s::%s (anchor lost)" % (ver, kind))
+            continue
+        try:
+            rec = acct.run(ver, kind, bl[(ver, kind)], mutator=mfn)
+        except Exception as e:  # noqa
+            r5.violation(key + "|explore", "cannot analyse %s: %r" % (mfn, e))
+            continue
+        fobj = F.fns[mfn]
+        if rec["diff"]:
+            d = rec["diff"][0]
+            r5.violation(key, "%s: after it runs, the Remaining Length counts [%s] which is not serialised and misses [%s] which is"
+                         % (key, d.get("only_in_build", d["build"]), d.get("only_serialised", d["serialised"])), d, site="%s:%s" % (fobj["file"], fobj["line"]))
+        elif rec["prop_diff"]:
+            d = rec["prop_diff"][0]
+            r5.violation(key, "%s: after it runs, a property-length field holds %s but the list serialised after it has %s" % (key, d["length"], d["list"]),
+                         d, site="%s:%s" % (fobj["file"], fobj["line"]))
+        elif rec["ok"]:
+            r5.ok(key, {"composed_paths": rec["ok"]})
+        else:
+            r5.violation(key + "|undecided", "%s: no post-state could be related to the serialiser (%s)" % (key, sorted(set(rec["undecided"]))[:3]))
 
     # ------------------------------------------------------------------ R2
     r2 = run.rule("C02-R2", "size() = 1 + remaining_length.size() + remaining_length.to_u32(); enum dispatch forwards to the payload", floor=29)
